@@ -389,6 +389,23 @@ func (r *Replayer) runQuery(k int, c *Concrete, q *Query) {
 		}
 		if !ok {
 			fail(string(q.R), string(body))
+			return
+		}
+		// a key is a key: near misses of a stored root (other letter case, leading zeros dropped, one digit short) match no
+		// block and get the not-found answer, never a page
+		if a[1] != -1 && (r.cur+k)%2 == 0 {
+			key := r.rootStr(c, a[1])
+			near := []string{strings.ToUpper(key), strings.TrimLeft(key, "0"), key[:len(key)-1], "0x" + key}
+			for _, v := range near {
+				if v == key || v == "" {
+					continue
+				}
+				code, body := r.S.HTTP("GET", fmt.Sprintf("/api/v1/chain/merkleroot?batchSize=%d&lastEvaluatedKey=%s", a[0], v), nil, nil)
+				if code != 404 || !structured4xx(code, body) {
+					fail(fmt.Sprintf("lastEvaluatedKey %q is not a stored merkle root (the stored one is %q): 404 structured", v, key), fmt.Sprintf("%d %.300s", code, body))
+					return
+				}
+			}
 		}
 	case "locator":
 		var exp []int
